@@ -149,6 +149,12 @@ def cks_extra(tier, seed):
             b += list(w.to_bytes(nb, 'big'))
         out.append({'kind': 'steps', 'ops': [['slice', b]]})
         out.append({'kind': 'steps', 'ops': [['b4', [0xff, 0xff, 0xff, 0xff]], ['slice', b], ['b2', [0, 1]]]})
+    # long slices in one piece (implementations switch strategy by length) - also summed at odd / 4 mod 8 addresses by the driver
+    for ln in (63, 64, 65, 66, 71, 96, 127, 128, 129, 200, 513, 1024, 1500):
+        for mode in ('rnd', 'ff', 'hi'):
+            data = rb(ln, mode)
+            out.append({'kind': 'steps', 'ops': [['slice', data]]})
+            out.append({'kind': 'steps', 'ops': [['slice', data[:2]], ['slice', data[2:]]]})
     # wide register carries
     for n in [0, 1, 2, 3, 100, 8191, 8192, 8193]:
         for ln in [0, 1, 2, 3, 4, 5, 7, 8, 9, 15, 16, 17, 33]:
@@ -443,7 +449,25 @@ JOBS['C10'] = Job('C10', mc='MC_Builder', tag='BUILD', drive='build-run', trace=
                                'raw IPv6 payloads announced as protocol 0 are only checked for size (a decoder reads them as hop-by-hop header)'])
 
 
+def c08_ctl_tags(tag):
+    """typed control-message headers are serialisable header types too (C08): announced length, decode -> re-encode, encode -> decode"""
+    t = tag.split(':')[0]
+    return ['C08'] if t in ('igmp.header_len', 'igmp.fields', 'igmp.encode_decode', 'icmp4.fields', 'icmp6.fields', 'icmp4.header_len', 'icmp4.header_struct_differs',
+                            'icmp6.header_struct_differs', 'ndp.prefix_information_struct', 'ndp.option_header', 'icmp.echo_header', 'grouprec.reencode', 'grouprec.fields',
+                            'arp.view_back_conversion', 'arp.view_fields', 'icmp6.to_payload', 'icmp6.type_code_accessors', 'icmp6.type_based_entry_points_differ') or t.startswith('panic') else []
+
+
+def c08_ctl_job():
+    j = JOBS['C17']
+    return Job('C08', mc=j.mc, tag=j.tag, drive=j.drive, trace=j.trace, invariants=j.invariants, consts_quick=j.consts_quick, consts_thorough=j.consts_thorough,
+               extra=j.extra, tag_props=c08_ctl_tags,
+               describe='one case = one control message byte string (ICMPv4 / ICMPv6 / NDP / IGMP / ARP view): announced header length, decode -> re-encode (normal form), encode -> decode',
+               assumptions=['typed control-message headers: the part of the Ctl pipeline that concerns serialisation (the dispatch tables themselves are C17)'])
+
+
 def run(pid, tier, seed, replay=None):
+    if pid == 'C08':
+        return run_composite(pid, tier, seed, replay, JOBS['C08'], c08_ctl_job(), ('header_codecs', 'typed_control_message_headers'))
     if pid == 'C15':
         return run_composite(pid, tier, seed, replay, C15_FIELDS, JOBS['C15'], ('newtype_domains', 'field_isolation'))
     if pid == 'C14':
